@@ -189,6 +189,10 @@ theorem cookie_accepted (guid : Bytes) (w : RealWorld) (user cc : Bytes) (e : Pw
     cases this
   obtain ⟨c1, cid, a1, a2, a3, a4, a5, a6, a7, a8, a9, a10⟩ :=
     cookie_lines (Server.init guid w) user cc e rfl hu0 hua hup hun hud hcc hncc hcca hsha'
+  have hw : (Server.init guid w : Server RealWorld Inst).world = w := rfl
+  have hinit : (Server.init guid w : Server RealWorld Inst).authenticated = false := rfl
+  rw [hw] at a5 a7 a8 a9 a10
+  rw [hinit] at a2 a7
   refine ⟨c1.challenge, c1.cookie, ?_⟩
   intro reads hall hflat
   have hlit1 : NoCR (lit "AUTH DBUS_COOKIE_SHA1 ") := by unfold NoCR; decide
@@ -214,10 +218,9 @@ theorem cookie_accepted (guid : Bytes) (w : RealWorld) (user cc : Bytes) (e : Pw
     have : (lit "DATA ").length = 5 := by decide
     have : maxAuthLength = 16384 := rfl
     omega
-  have hinit : (Server.init guid w : Server RealWorld Inst).authenticated = false := rfl
   have hconv : convOk real (Server.init guid w)
       [cookieAuthLine user, cookieDataLine w.cfg.sha1 c1.challenge cc c1.cookie, lit "BEGIN"] :=
-    ⟨a1, a2.trans hinit, hl1, a5, a7.trans hinit, hl2, a8, a9, by decide⟩
+    ⟨a1, a2, hl1, a5, a7, hl2, a8, a9, by decide⟩
   have := conv_accepted real guid w (encodeLines [cookieAuthLine user, cookieDataLine w.cfg.sha1 c1.challenge cc c1.cookie, lit "BEGIN"])
     [cookieAuthLine user, cookieDataLine w.cfg.sha1 c1.challenge cc c1.cookie, lit "BEGIN"] hsp hconv reads hall hflat
   simp only [convFinal] at this
